@@ -387,6 +387,7 @@ class MpmcRingBuffer {
         DISPENSO_VERIF_POINT("mpmc.pop.data_read", slot.data);
         T* elem = dataPtr(slot);
         item = std::move(*elem);
+        DISPENSO_VERIF_POINT("mpmc.pop.data_destroy", slot.data);
         elem->~T();
         DISPENSO_VERIF_POINT("mpmc.pop.seq_store", &slot.seq);
         slot.seq.store(head + kBufferSize, std::memory_order_release);
@@ -434,6 +435,7 @@ class MpmcRingBuffer {
         DISPENSO_VERIF_POINT("mpmc.pop.data_read", slot.data);
         T* elem = dataPtr(slot);
         OpResult<T> result(std::move(*elem));
+        DISPENSO_VERIF_POINT("mpmc.pop.data_destroy", slot.data);
         elem->~T();
         DISPENSO_VERIF_POINT("mpmc.pop.seq_store", &slot.seq);
         slot.seq.store(head + kBufferSize, std::memory_order_release);
@@ -475,6 +477,7 @@ class MpmcRingBuffer {
         DISPENSO_VERIF_POINT("mpmc.pop.data_read", slot.data);
         T* elem = dataPtr(slot);
         new (storage) T(std::move(*elem));
+        DISPENSO_VERIF_POINT("mpmc.pop.data_destroy", slot.data);
         elem->~T();
         DISPENSO_VERIF_POINT("mpmc.pop.seq_store", &slot.seq);
         slot.seq.store(head + kBufferSize, std::memory_order_release);
